@@ -60,6 +60,20 @@ def _mesh(positions: List[int]):
 def scan(repo: Repo) -> RuleRun:
     r = RuleRun(PROP, "C18.SCAN", floor=10, what="finders scan all vertices, strict comparison, correct default radius, shell = shell - core")
     fbp = repo.func("modify.find.finder.FinderBase._find_by_position")
+    # the acceptance tests themselves: purely absolute, library tolerance (or the caller's radius), nowhere a relative part
+    from .. import tolerance
+
+    tolerance.check_functions(
+        r,
+        repo,
+        ["modify.find.finder.FinderBase._find_by_position", "util.functions.is_point_on_plane"],
+        scan_modules=("modify.find.finder", "modify.find.geometric", "modify.find.shape"),
+    )
+    for q in ("modify.find.finder.FinderBase._find_by_position", "util.functions.is_point_on_plane"):
+        fq = repo.func(q)
+        for i, c in enumerate(tolerance.tests_in(repo, fq.module, fq.node)):
+            if c.rtol == 0:
+                r.check(c.strict and not c.negated, fq, "strict '<'", f"{q} accepts with '{ast.unparse(c.node)}'; a vertex exactly at the given distance is outside (strict '<')", c.node, key=f"strict#{i}")
     positions = [0, 3, 5, 5, 9, 7]
     cases = [
         (5, 3, {1, 2, 3, 5}, "radius 3: |d|<3 -> d in {2,0,0,2}"),
@@ -98,11 +112,6 @@ def scan(repo: Repo) -> RuleRun:
     res = _run(Evaluator(repo=repo, module=fop.module, call_hook=dist_hook()), fop, [this, 5, Sym("normal")])
     got = {v.get("index") for v in res} if isinstance(res, (set, list)) else res
     r.check(got == {2, 3}, fop, "find_on_plane returns all on-plane vertices", f"find_on_plane returns {got}; vertices 2 and 3 lie on the plane", fop.node, key="find_on_plane")
-    # is_point_on_plane: strict < TOL on an absolute distance
-    ipp = repo.func("util.functions.is_point_on_plane")
-    rets = [n for n in walk_shallow(ipp.node) if isinstance(n, ast.Return)]
-    ok = len(rets) == 1 and isinstance(rets[0].value, ast.Compare) and isinstance(rets[0].value.ops[0], ast.Lt) and ast.unparse(rets[0].value.comparators[0]).split(".")[-1] == "TOL" and isinstance(rets[0].value.left, ast.Call) and (attr_chain(rets[0].value.left.func) or "").endswith("point_to_plane_distance")
-    r.check(ok, ipp, "distance < TOL", f"is_point_on_plane does not test 'point_to_plane_distance(...) < TOL': {ast.unparse(rets[0]) if rets else ''}", ipp.node, key="is_point_on_plane")
     ptp = repo.func("util.functions.point_to_plane_distance")
     rets = [n for n in walk_shallow(ptp.node) if isinstance(n, ast.Return)]
     nonneg = all(isinstance(x.value, ast.Call) and (attr_chain(x.value.func) or "").split(".")[-1] in ("abs", "norm", "fabs") for x in rets) and bool(rets)
@@ -313,4 +322,24 @@ def triangle_partition(repo: Repo) -> RuleRun:
 
 triangle_partition.rule_id = "C18.TRIANGLE-PARTITION"
 
-RULES = [scan, corner_table, frame_signs, triangle_partition]
+def affine_kinds(repo: Repo) -> RuleRun:
+    """The viewing directions of the re-orienter and the finders' distances are differences of points (observer - block
+    centre, vertex - position): a position used as a direction is right only for a block at the origin."""
+    from ..affine import kinds_rule
+
+    return kinds_rule(repo, PROP, "C18.AFFINE-KINDS", ("modify.", "util.functions"), floor=5)
+
+
+affine_kinds.rule_id = "C18.AFFINE-KINDS"
+
+def stale_alias(repo: Repo) -> RuleRun:
+    """'exactly the vertices of the mesh': a finder must look at the mesh's current vertex list, not at a reference
+    taken when it was created that a later clear()/backport() replaces."""
+    from ..alias import stale_alias_rule
+
+    return stale_alias_rule(repo, PROP, "C18.STALE-ALIAS")
+
+
+stale_alias.rule_id = "C18.STALE-ALIAS"
+
+RULES = [scan, corner_table, frame_signs, triangle_partition, affine_kinds, stale_alias]
